@@ -28,8 +28,10 @@
 (* every struct is a record with field k = Go type name and ALL exported    *)
 (* fields; nil pointer = Nil; slices = sequences; strings = code points.    *)
 (*                                                                         *)
-(* PRINTER.  W<Type>(s, e) is e.writeTo(s): s is the strings.Builder so far *)
-(* (Index.writeTo inspects its last byte).  PrintQ(q) = q.String().          *)
+(* PRINTER.  W<Type>(d, s, e) is e.writeTo(s): s is the strings.Builder so  *)
+(* far (Index.writeTo inspects its last byte), d the set of deviations of   *)
+(* query.go that are switched on (see CodeDeviations at the end).           *)
+(* PrintQ(q) = q.String().                                                  *)
 (***************************************************************************)
 EXTENDS Lexer
 
